@@ -248,6 +248,10 @@ def transform_path_to_dotted(sys_path, module_path):
                 if rest.startswith(os.path.sep) or rest.startswith('/'):
                     # Remove a slash in cases it's still there.
                     rest = rest[1:]
+                elif not (p.endswith(os.path.sep) or p.endswith('/')):
+                    # `p` is only a string prefix of the path, not one of its
+                    # directories (/foo/ba vs. /foo/bar).
+                    continue
 
                 if rest:
                     split = rest.split(os.path.sep)
